@@ -8,7 +8,7 @@ class OpContract:
     def __init__(self, name, props, file, func, call, params, spec, cells=None, inv="True", requires=None,
                  raises=(), loops=None, sources=("source",), notes="", witness=None, spec_args=None,
                  scheduler=None, known=None, elem="val", families=None, exclusive=None, stage_args=None, live=None, timed=False,
-                 timers=None):
+                 timers=None, inv_done=None):
         #: K1-T: the operator reads the scheduler clock / sets timers.  Each step happens at one instant `now` (>= the spec's
         #: `clock`, the instant of the previous step); timers: name -> dict(created_in="subscribe" | "<source>.on_next" | ...,
         #: spec=<spec method run when it fires>, inv=<extra invariant over the action's closure scope and `due`>, index=<k-th
@@ -16,6 +16,10 @@ class OpContract:
         self.timed = timed or bool(timers)
         #: re-entrancy discipline: the coupling invariant must also hold at every element handed downstream (set per contract)
         self.reentrant = True
+        #: the source is only subscribed later (by a timer), not by subscribe itself
+        self.late_subscribe = False
+        #: invariant of the TERMINATED state: steps taken after the end must keep it and be invisible outside the operator
+        self.inv_done = inv_done
         self.timers = timers or {}
         #: multi-source operators: expression over the spec state and the source index `i` saying that source i has not
         #: terminated yet - assumed when a handler of source i runs (a source emits nothing after its terminal)
